@@ -225,6 +225,14 @@ def _apply_motion(rng, mesh, kind, dim, inplane=False):
     raise ValueError(kind)
 
 
+def _locate_some(rng, mesh, dim):
+    """A few points inside elements are located (with reference coordinates) through the public mapping of the main groups."""
+    for g in mesh.Get_list_groupElem(dim):
+        Xe = mesh.coord[g.connect[: min(4, g.Ne)]]
+        pts = Xe.mean(1)
+        g.Get_Mapping(pts, needCoordinates=True)
+
+
 def run_motion(case, ctx, rng):
     et = case["et"]
     key = f"C08/motion/{et}"
@@ -253,8 +261,21 @@ def run_motion(case, ctx, rng):
                 # out-of-plane rotations are exercised by the embedded-surface scenario
                 f = _apply_motion(rng, mesh, kind, dim, inplane=True)
                 Xn = mesh.coord
+                located_first = bool((case["index"] + len(done)) % 2)
+                if located_first:
+                    # a point location is the first thing asked of the moved mesh (it reads signed jacobians)
+                    _locate_some(rng, mesh, dim)
                 m1 = mesh_measure(mesh, dim)
                 c1 = np.asarray(mesh.center)
+                if not located_first:
+                    _locate_some(rng, mesh, dim)
+                # integrals with the default (mass) rule of the element groups: the measure and the first moments of the moved mesh
+                groups_ = mesh.Get_list_groupElem(dim)
+                mI = float(sum(np.sum(g.Integrate_e(lambda x, y, z: 1.0 + 0.0 * x)) for g in groups_))
+                fI = np.array([float(sum(np.sum(g.Integrate_e(lambda x, y, z, d=d: (x, y, z)[d])) for g in groups_)) for d in range(3)])
+        ctx.check("measure-invariant", abs(mI - m0) / m0, 1e-10, key + f"/{kind}/integrated-measure", before=m0, after=mI, located_first=located_first)
+        ctx.check("center-follows", float(np.abs(fI / m0 - f(cen[None])[0]).max() / measure ** (1 / dim)), 1e-9, key + f"/{kind}/integrated-first-moments",
+                  located_first=located_first)
         ctx.check("coords-moved-as-specified", relerr(Xn, f(X), scale=np.abs(X).max() + 1), 1e-12, key + f"/{kind}/coords")
         ctx.check("measure-invariant", abs(m1 - m0) / m0, 1e-10, key + f"/{kind}/measure", before=m0, after=m1)
         ctx.check("center-follows", float(np.abs(c1 - f(cen[None])[0]).max() / measure ** (1 / dim)), 1e-9, key + f"/{kind}/center")
